@@ -16,6 +16,10 @@ RULE = ("cases = pairs/triples of causal rational filters with small integer coe
         "an independent rational-function arithmetic on (numerator, denominator) dicts of "
         "Fractions (equality by cross-multiplication) and diffeq_ref of the expected rational "
         "function for outputs, plus the identities between the library's own two sides; "
+        "round 6: divisors and operands that start with a delay (common delays the constructor removes), one scalar value "
+        "spelled as float / int / Fraction in turn (values spread over ~10**12 numbers), the same two filter objects as "
+        "operands of every operator and of augmented assignments on a second name, filter lists holding one object several "
+        "times and built by list arithmetic, substitution of c*z**k and of delay-leading filters; "
         "non-trivial = both operands have order >= 1 and are structurally different; distinct = "
         "distinct case hash")
 ASSUMPTIONS = [
@@ -26,6 +30,8 @@ ASSUMPTIONS = [
   "scalars used as divisors are powers of two (1/c is computed by the library in floating point)",
   "equal rational functions give equal outputs from rest (zero initial state), whatever common factors they carry",
   "== on filters is structural (numerator and denominator polynomials); the property only asks for ==/!=/hash consistency",
+  "operators (also written as augmented assignments: ZFilter defines none, so p op= g is p = p op g) leave their operands "
+  "the filters they were; a float-spelled scalar is only applied to small-int filters (float arithmetic is exact there)",
 ]
 
 ZERO = Q(0)
@@ -207,6 +213,7 @@ def run_signals(c):
   chk("(f+c)(x)", mk(c["f"]) + cc, RF.const(cc) + F_, [p + cc * v for p, v in zip(fx, x)])
   chk("(c-f)(x)", cc - mk(c["f"]), RF.const(cc) - F_, [cc * v - p for p, v in zip(fx, x)])
   chk("(-f)(x)", -mk(c["f"]), -F_, [-p for p in fx])
+  chk("(+f)(x)", +mk(c["f"]), F_, fx)
   fg = run_filt(mk(c["f"]), gx)
   gf = run_filt(mk(c["g"]), fx)
   if fg != gf:
@@ -222,13 +229,103 @@ def run_signals(c):
   delayed = ([ZERO] * k + list(x))[:len(x)]
   chk("(z**-%d)(x)" % k, z ** -k, RF({k: 1}), delayed)
   chk("(f*z**-%d)(x)" % k, mk(c["f"]) * z ** -k, F_ * RF({k: 1}), ([ZERO] * k + fx)[:len(x)])
-  labels = ["n=%d" % n, "k=%d" % k]
+  reuse_operands(c, x, fx, gx, F_, G_)
+  labels = ["n=%d" % n, "k=%d" % k, "operands reused"]
   if c["f"][1] == c["g"][1]:
     labels.append("same denominator")
   if order(c["f"]) >= 1 and any(c["f"][1][1:]):
     labels.append("f recursive")
   nt = order(c["f"]) >= 1 and order(c["g"]) >= 1 and c["f"] != c["g"] and len(x) >= 3
   return {"nontrivial": nt, "labels": labels}
+
+
+def snapshot(filt):
+  return (list(filt.numpoly.terms()), list(filt.denpoly.terms()), hash(filt))
+
+
+def reuse_operands(c, x, fx, gx, F_, G_):
+  """The same two filter objects serve as operands of every operator, one after the other, written as binary
+  expressions and as augmented assignments on a second name (p = f; p *= g is p = f * g): each result is the model's,
+  and f and g - still referenced by the caller and sitting in a CascadeFilter / ParallelFilter - remain the filters
+  they were (polynomials, hash, output)."""
+  cc, n = c["c"], c["n"]
+  f0, g0 = mk(c["f"]), mk(c["g"])
+  sf, sg = snapshot(f0), snapshot(g0)
+  casc, par = CascadeFilter(f0, g0), ParallelFilter(f0, g0)
+  C_ = RF.const(cc)
+
+  def untouched(after):
+    if snapshot(f0) != sf or snapshot(g0) != sg:
+      raise Violation("after %s the operand %s is no longer the filter it was: now (%r)/(%r), hash %s (f=%r g=%r c=%r)"
+                      % (after, "f" if snapshot(f0) != sf else "g",
+                         dict((f0 if snapshot(f0) != sf else g0).numpoly.terms()),
+                         dict((f0 if snapshot(f0) != sf else g0).denpoly.terms()),
+                         "changed" if (snapshot(f0)[2], snapshot(g0)[2]) != (sf[2], sg[2]) else "kept",
+                         c["f"], c["g"], cc))
+
+  def aug(name, left, op, right, model):
+    p = left
+    if op == "+":
+      p += right
+    elif op == "-":
+      p -= right
+    elif op == "*":
+      p *= right
+    elif op == "/":
+      p /= right
+    else:
+      p **= right
+    if not isinstance(p, ZFilter):
+      raise Violation("%s leaves a %s" % (name, type(p).__name__))
+    expect_same(p, model, name)
+    untouched(name)
+    return p
+
+  for name, real, model in (("f+g", f0 + g0, F_ + G_), ("g-f", g0 - f0, G_ - F_), ("f*g", f0 * g0, F_ * G_),
+                            ("f/g", f0 / g0, F_ / G_), ("c*f", cc * f0, C_ * F_), ("f**n", f0 ** n, F_ ** n),
+                            ("-g", -g0, -G_), ("f*f", f0 * f0, F_ * F_), ("g+g", g0 + g0, G_ + G_)):
+    expect_same(real, model, name + " on operands used before")
+    untouched(name)
+  if len((f0 - f0).numpoly) != 0 or len((g0 - g0).numpoly) != 0:
+    raise Violation("f - f (one object on both sides) has numerator %r (f=%r)" % ((f0 - f0).numpoly, c["f"]))
+  expect_same(g0 / g0, RF({0: 1}), "g / g (one object on both sides)")
+  untouched("f - f, g / g")
+  aug("p = f; p += g", f0, "+", g0, F_ + G_)
+  aug("p = f; p -= g", f0, "-", g0, F_ - G_)
+  prod = aug("p = f; p *= g", f0, "*", g0, F_ * G_)
+  aug("p = f; p /= g", f0, "/", g0, F_ / G_)
+  aug("p = g; p *= f", g0, "*", f0, F_ * G_)
+  aug("p = g; p += f", g0, "+", f0, F_ + G_)
+  aug("p = f; p *= c", f0, "*", cc, C_ * F_)
+  aug("p = f; p += c", f0, "+", cc, C_ + F_)
+  aug("p = g; p -= c", g0, "-", cc, G_ - C_)
+  aug("p = f; p **= n", f0, "**", n, F_ ** n)
+  aug("p = f; p *= p", f0, "*", f0, F_ * F_)
+  aug("p = g; p += p", g0, "+", g0, G_ + G_)
+  # accumulate the product / sum of the parts the way a loop does
+  acc = f0
+  acc *= g0
+  acc *= f0
+  tot = g0
+  tot += f0
+  tot += g0
+  expect_same(acc, F_ * G_ * F_, "acc = f; acc *= g; acc *= f")
+  expect_same(tot, G_ + F_ + G_, "tot = g; tot += f; tot += g")
+  untouched("accumulating with *= and +=")
+  # the operands still are the systems they were, and so are the filter lists holding them
+  if run_filt(f0, x) != fx or run_filt(g0, x) != gx:
+    raise Violation("f(x) or g(x) changed after f and g were used as operands: f=%r g=%r x=%r" % (c["f"], c["g"], x))
+  fg = run_filt(f0, gx)
+  if run_filt(prod, x) != fg or run_filt(g0, fx) != fg:
+    raise Violation("p = f; p *= g: p(x) = %r, f(g(x)) = %r, g(f(x)) = %r (f=%r g=%r x=%r)"
+                    % (run_filt(prod, x), fg, run_filt(g0, fx), c["f"], c["g"], x))
+  if list(g0(f0(iter(list(x)), zero=ZERO), zero=ZERO)) != fg:     # composed lazily, Stream into filter
+    raise Violation("g(f(x)) composed lazily differs from (f*g)(x) = %r (f=%r g=%r x=%r)" % (fg, c["f"], c["g"], x))
+  expect_same(casc, F_ * G_, "CascadeFilter(f, g) polynomials after f and g were used as operands")
+  expect_same(par, F_ + G_, "ParallelFilter(f, g) polynomials after f and g were used as operands")
+  if list(casc(list(x), zero=ZERO)) != fg or list(par(list(x), zero=ZERO)) != [p + q for p, q in zip(fx, gx)]:
+    raise Violation("CascadeFilter(f, g)(x) / ParallelFilter(f, g)(x) changed after f and g were used as operands: "
+                    "f=%r g=%r x=%r" % (c["f"], c["g"], x))
 
 
 # ---------------------------------------------------------------- (a') high powers
@@ -325,6 +422,7 @@ def strat_lists(tier):
     how=st.sampled_from(["args", "list"]),
     feed=st.sampled_from(["list", "tuple", "iter", "gen", "stream", "stream"]),
     nest=st.booleans(),
+    build=st.sampled_from(["plain", "plain", "shared", "repeat", "rrepeat", "concat", "grown"]), rep=st.integers(2, 3),
     replace=st.one_of(st.none(), st.tuples(st.integers(0, 2), filt_st(), st.sampled_from(["setitem", "imul", "slice"])))))
 
 
@@ -380,6 +478,11 @@ def run_lists(c):
   labels = ["%d parts" % len(parts), "feed:" + c.get("feed", "list")]
   if len(parts) >= 2 and len(set(tuple(p[1]) for p in parts)) < len(parts):
     labels.append("shared denominator")
+  # a filter list is a list: it may hold the same filter object at several positions ([f] * n sections), and it is
+  # built by list arithmetic (lst * n, n * lst, lst + lst, +=, append / extend / insert) as well as by the constructor
+  bld = c.get("build", "plain")
+  if bld != "plain" and parts:
+    labels += list_arithmetic(c, parts, x, feed, bld)
   # a filter list is a mutable list: after a member is replaced in place, polynomials and output
   # must follow the current members (nothing may be remembered from the first reading)
   rep = c.get("replace")
@@ -409,6 +512,63 @@ def run_lists(c):
     labels.append("member replaced in place")
   return {"nontrivial": len(parts) >= 2 and all(order(p) >= 1 for p in parts) and len(x) >= 3,
           "labels": labels}
+
+
+def list_arithmetic(c, parts, x, feed, bld):
+  rep = c.get("rep", 2)
+  objs = [mk(p) for p in parts]       # ONE object per part, placed several times
+  if bld == "shared":
+    idx = list(range(len(parts))) * 2
+    cl, pl = CascadeFilter(*[objs[i] for i in idx]), ParallelFilter([objs[i] for i in idx])
+  elif bld == "repeat":
+    idx = list(range(len(parts))) * rep
+    cl, pl = CascadeFilter(*objs) * rep, ParallelFilter(*objs) * rep
+  elif bld == "rrepeat":
+    idx = list(range(len(parts))) * rep
+    cl, pl = rep * CascadeFilter(objs), rep * ParallelFilter(objs)
+  elif bld == "concat":
+    idx = list(range(len(parts))) + [0] + list(range(len(parts)))[1:]
+    cl = CascadeFilter(*objs) + CascadeFilter(objs[0]) + CascadeFilter(objs[1:])
+    pl = ParallelFilter(*objs) + ParallelFilter(objs[0]) + ParallelFilter(objs[1:])
+  else:   # grown
+    idx = [len(parts) - 1] + list(range(len(parts))) + [0, 0] + list(range(len(parts)))
+    cl, pl = CascadeFilter(), ParallelFilter()
+    for lst in (cl, pl):
+      for o in objs:
+        lst.append(o)
+      lst.extend(objs[:1])
+      lst.insert(0, objs[-1])
+      lst += [objs[0]]
+      lst += type(lst)(objs)
+  if type(cl) is not CascadeFilter or type(pl) is not ParallelFilter:
+    raise Violation("filter lists built as %r are a %s and a %s" % (bld, type(cl).__name__, type(pl).__name__))
+  if len(cl) != len(idx) or len(pl) != len(idx) or any(a is not objs[i] for a, i in zip(cl, idx)) \
+     or any(a is not objs[i] for a, i in zip(pl, idx)):
+    raise Violation("filter lists built as %r do not hold the expected members (%d members, expected %d)"
+                    % (bld, len(cl), len(idx)))
+  prod_m, sum_m = RF({0: 1}), RF({})
+  for i in idx:
+    prod_m = prod_m * RF.lists(*parts[i])
+    sum_m = sum_m + RF.lists(*parts[i])
+  what = "built as %r from parts=%r (member order %r)" % (bld, parts, idx)
+  expect_same(cl, prod_m, "CascadeFilter polynomials, " + what)
+  expect_same(pl, sum_m, "ParallelFilter polynomials, " + what)
+  co, po = list(cl(feed(list(x)), zero=ZERO)), list(pl(feed(list(x)), zero=ZERO))
+  if co != prod_m.response(x):
+    raise Violation("CascadeFilter %s: output %r, expected %r (x=%r)" % (what, co, prod_m.response(x), x))
+  if po != sum_m.response(x):
+    raise Violation("ParallelFilter %s: output %r, expected %r (x=%r)" % (what, po, sum_m.response(x), x))
+  if len(parts) == 1 and bld in ("repeat", "rrepeat", "shared"):
+    n = len(idx)
+    pw = objs[0] ** n
+    if not (cl.numpoly * pw.denpoly == pw.numpoly * cl.denpoly) or run_filt(pw, x) != co:
+      raise Violation("CascadeFilter of the same filter %d times is not f ** %d (f=%r x=%r)" % (n, n, parts[0], x))
+    if run_filt(n * objs[0], x) != po:
+      raise Violation("ParallelFilter of the same filter %d times is not %d * f (f=%r x=%r)" % (n, n, parts[0], x))
+  # the members are still what they were, and a second call gives the same
+  if list(cl(list(x), zero=ZERO)) != co or list(pl(list(x), zero=ZERO)) != po:
+    raise Violation("second call of the filter lists %s differs from the first" % what)
+  return ["same member object at several positions", "built:" + bld]
 
 
 # ---------------------------------------------------------------- long filters
@@ -529,8 +689,19 @@ def _wide_kind(kind):
   return st.fixed_dictionaries(base).map(build)
 
 
+def _with_delays(t):
+  d, gd, extra, sh = t
+  d = dict(d)
+  # gd: delay both numerators start with (the divisor g has no constant term: f/g reaches the constructor with a
+  # denominator whose lowest power is not z**0); f may start later still; sh: the lists handed to ZFilter(b, a) for f
+  # both start with sh zeros (the constructor itself has to remove the common delay)
+  d.update(gdelay=gd, fdelay=gd + (extra if gd else 0), fshift=sh)
+  return d
+
+
 def strat_wide(tier):
-  return st.sampled_from(WIDE_KINDS).flatmap(_wide_kind)
+  return st.tuples(st.sampled_from(WIDE_KINDS).flatmap(_wide_kind), st.sampled_from([0, 0, 0, 1, 1, 2]),
+                   st.sampled_from([0, 0, 1]), st.sampled_from([0, 0, 0, 1, 2])).map(_with_delays)
 
 
 def prints_exactly(filt):
@@ -564,7 +735,9 @@ def run_wide(c):
   """Sums, differences, products, quotients, cascades and parallels of two filters whose exact coefficients are
   big ints, plain (dyadic) Fractions or nearly cancelling pairs: polynomials always, outputs when printed exactly."""
   fb, fa, gb, ga, x, cc = list(c["fb"]), list(c["fa"]), list(c["gb"]), list(c["ga"]), c["x"], c["c"]
-  f = lambda: ZFilter(list(fb), list(fa))
+  gd, fd, sh = c.get("gdelay", 0), c.get("fdelay", 0), c.get("fshift", 0)
+  fb, gb = [0] * fd + fb, [0] * gd + gb       # causal still; f/g too, since f starts no earlier than g
+  f = lambda: ZFilter([0] * sh + list(fb), [0] * sh + list(fa))     # sh > 0: a common delay the constructor removes
   g = lambda: ZFilter(list(gb), list(ga))
   F_, G_, C_ = RF.lists(fb, fa), RF.lists(gb, ga), RF.const(cc)
   ran = [0]
@@ -610,15 +783,18 @@ def run_wide(c):
   chk("ParallelFilter(f, g)(x)", ParallelFilter(f(), g()), F_ + G_, zipped(lambda p, q: p + q))
   chk("ParallelFilter(f, g, -g)(x)", ParallelFilter(f(), g(), -g()), F_, fx)
   chk("ParallelFilter(g, f, -g)(x)", ParallelFilter(g(), f(), -g()), F_, fx)
-  # quotients: g's numerator starts at delay 0 by construction, so 1/g is causal
+  # quotients: g's numerator starts at delay gd <= the delay f's starts with, so f/g is causal (and 1/g when gd == 0)
   quot = f() / g()
   chk("(f/g)(x)", quot, F_ / G_)
-  inv = chk("(1/g)(x)", 1 / g(), G_.inv())
+  inv = chk("(1/g)(x)", 1 / g(), G_.inv())       # gd > 0: not causal, polynomials only
   chk("(g/g)(x)", g() / g(), RF({0: 1}), list(x))
   chk("((f/g)*g)(x)", (f() / g()) * g(), F_, fx)
   chk("(g*(f/g))(x)", g() * (f() / g()), F_, fx)
   chk("CascadeFilter(f/g, g)(x)", CascadeFilter(f() / g(), g()), F_, fx)
-  chk("CascadeFilter(g, 1/g)(x)", CascadeFilter(g(), 1 / g()), RF({0: 1}), list(x))
+  if gd == 0:
+    chk("CascadeFilter(g, 1/g)(x)", CascadeFilter(g(), 1 / g()), RF({0: 1}), list(x))
+  else:
+    expect_same(CascadeFilter(g(), 1 / g()), RF({0: 1}), "CascadeFilter(g, 1/g) polynomials (g=%r/%r)" % (gb, ga))
   if both and prints_exactly(quot):
     if run_filt(f() / g(), gx) != fx:
       raise Violation("(f/g)(g(x)) = %r but f(x) = %r (f=%r/%r g=%r/%r x=%r)"
@@ -627,6 +803,12 @@ def run_wide(c):
     raise Violation("(1/g)(g(x)) = %r, not x = %r (g=%r/%r)" % (run_filt(1 / g(), gx), x, gb, ga))
   # labels: measured on the data, not on the construction
   labels = ["kind:" + c["kind"]]
+  if gd:
+    labels.append("divisor starts with a delay")
+    if c["kind"] == "bigint":
+      labels.append("divisor starts with a delay, ints beyond 2**53")
+  if sh:
+    labels.append("constructor removes a common delay")
   tn = lambda l: trim(dict(enumerate(F(v) for v in l)))
   nfb, nfa, ngb, nga = tn(fb), tn(fa), tn(gb), tn(ga)
   neg = lambda p: p_scale(p, -1)
@@ -655,6 +837,110 @@ def run_wide(c):
   order_of = lambda b, a: max(max(tn(b) or [0]), max(tn(a) or [0]))
   return {"nontrivial": order_of(fb, fa) >= 1 and order_of(gb, ga) >= 1 and (fb, fa) != (gb, ga),
           "labels": labels}
+
+
+# ---------------------------------------------------------------- one scalar value, several spellings
+# A scalar is a value: 5, 5.0 and Fraction(5) (2.5 and Fraction(5, 2)) are the same c.  Whatever spelling of c was
+# used before - on whichever filter, on whichever side of the operator - an int / Fraction c applied to a filter with
+# exact coefficients gives the exact c*f, c+f, c-f, c/f.  The float spelling is only applied to filters with small
+# int coefficients (float arithmetic is exact there).  The scalar values are spread over ~10**12 numbers so that a
+# case meets values no earlier case of the same process has used.
+SPELL_OPS = ["c*f", "c+f", "c-f", "c/f", "c*f", "c+f", "c-f", "f*c", "f+c", "f-c"]
+_spell_step = st.tuples(st.sampled_from(["float", "int", "fraction", "int"]), st.sampled_from(SPELL_OPS),
+                        st.sampled_from(["wide", "wide", "wide", "small"]))
+_first_step = st.tuples(st.sampled_from(["float", "float", "float", "float", "fraction", "int"]),
+                        st.sampled_from(SPELL_OPS), st.just("small"))
+
+
+def strat_spell(tier):
+  co = st.fractions(min_value=-3, max_value=3, max_denominator=7)
+  per = lambda el: st.lists(el, min_size=3, max_size=3)
+  return st.fixed_dictionaries(dict(
+    ma=st.integers(0, 10 ** 6), mb=st.integers(0, 10 ** 6), k=st.sampled_from([0, 0, 0, 1, 2, 3]),
+    sign=st.sampled_from([1, 1, -1]),
+    g=filt_st(need_b0=True),
+    kind=st.sampled_from(["bigint", "bigint", "nearfrac", "sevenths"]), big=st.sampled_from(BIGS), tiny=st.sampled_from(TINY),
+    n=st.integers(1, 3), m=per(_small), r=per(_small), q=per(co),
+    fa=st.tuples(_nzsmall, st.lists(_small, max_size=2)).map(lambda t: [t[0]] + t[1]),
+    first=_first_step, steps=st.lists(_spell_step, min_size=1, max_size=3),
+    x=st.one_of(st.lists(qv, min_size=3, max_size=6), st.lists(qv, max_size=6))))
+
+
+def float_exact(v):
+  v = F(v)
+  try:
+    return F(v.numerator / v.denominator) == v
+  except OverflowError:
+    return False
+
+
+def run_spell(c):
+  m = 4 + c["ma"] + 1000003 * c["mb"]
+  cv = F(c["sign"] * m, 2 ** c["k"])
+  spellings = {"float": float(cv), "fraction": cv, "int": int(cv) if cv.denominator == 1 else cv}
+  if F(spellings["float"]) != cv:
+    raise Reject()      # cannot happen: m < 2**41
+  x = c["x"]
+  # the filter with wide exact coefficients
+  fb = []
+  for i in range(c["n"]):
+    if c["kind"] == "bigint":
+      mm = c["m"][i] or (1 if i == 0 else 0)
+      fb.append(mm * c["big"] + c["r"][i] if mm else c["r"][i])
+    elif c["kind"] == "nearfrac":
+      fb.append((c["q"][i] if (c["q"][i] or i) else F(1, 3)) + c["r"][i] * c["tiny"])
+    else:
+      fb.append(c["q"][i] if (c["q"][i] or i) else F(1, 7))
+  fa = list(c["fa"])
+  targets = {"wide": (lambda: ZFilter(list(fb), list(fa)), RF.lists(fb, fa), fb + fa),
+             "small": (lambda: mk(c["g"]), RF.lists(*c["g"]), list(c["g"][0]) + list(c["g"][1]))}
+  C_ = RF.const(cv)
+  labels = ["kind:" + c["kind"]]
+  seen_float = seen_float_reflected = False
+  hit = False
+  for i, (sp, op, tg) in enumerate([tuple(c["first"])] + [tuple(t) for t in c["steps"]]):
+    if sp == "float":
+      tg = "small"        # float arithmetic on big ints / 1/3 is not exact: outside the property
+    make, M_, coeffs = targets[tg]
+    cc = spellings[sp]
+    filt = make()
+    if op == "c*f":
+      real, model = cc * filt, C_ * M_
+    elif op == "c+f":
+      real, model = cc + filt, C_ + M_
+    elif op == "c-f":
+      real, model = cc - filt, C_ - M_
+    elif op == "c/f":
+      real, model = cc / filt, C_ / M_
+    elif op == "f*c":
+      real, model = filt * cc, C_ * M_
+    elif op == "f+c":
+      real, model = filt + cc, C_ + M_
+    else:
+      real, model = filt - cc, M_ - C_
+    what = "step %d: %s with c = %r (%s) on f = %s; steps so far %r" % (
+      i, op, cc, type(cc).__name__, "%r/%r" % ((fb, fa) if tg == "wide" else tuple(c["g"])),
+      [tuple(c["first"])] + [tuple(t) for t in c["steps"]][:i])
+    if not isinstance(real, ZFilter):
+      raise Violation("%s gives a %s" % (what, type(real).__name__))
+    expect_same(real, model, what)
+    if prints_exactly(real):
+      expect_out(real, model, x, what)
+    if sp == "float":
+      seen_float = True
+      seen_float_reflected = seen_float_reflected or op.startswith("c")
+    elif seen_float:
+      labels.append("exact spelling after the float spelling")
+      if seen_float_reflected and op.startswith("c") and op != "c/f" and any(
+           not float_exact(v) or not float_exact(cv * F(v)) for v in coeffs):
+        hit = True
+  if tuple(c["first"])[0] == "float":
+    labels.append("float spelling first")
+  if hit:
+    labels.append("exact c on the left after float c on the left, coefficients a float would round")
+  if cv.denominator != 1:
+    labels.append("c is not an integer")
+  return {"nontrivial": seen_float and len(x) >= 1, "labels": sorted(set(labels))}
 
 
 # ---------------------------------------------------------------- linearize (fractional delays)
@@ -712,10 +998,15 @@ def run_lin(c):
 def tree_st(depth):
   # by construction every sub-tree is a filter: bare numbers only appear as one operand of + - *
   fl = filt_st(need_b0=True).map(lambda ba: ("filt", ba))
+  # c * z ** k, k != 0: a scaled delay (k < 0) or advance (k > 0; f(c * z ** k) stays causal); never a bare gain
+  mono = st.tuples(st.just("zmono"), st.sampled_from([1, 1, 2, 2, 3, -1, -2]), st.sampled_from([1, 2, -1, -2, .5, 4, 2, -2]))
   leaf = st.one_of(fl, fl, fl, filt_st().map(lambda ba: ("filt", ba)),
                    st.integers(0, 3).map(lambda k: ("delay", k)))
   if depth == 0:
     return leaf
+  # a divisor / substituted filter without constant term in its numerator (delay-leading), or a scaled power of z
+  nolead = st.tuples(st.integers(1, 2), filt_st(need_b0=True)).map(lambda t: ("filt", ([0] * t[0] + list(t[1][0]), t[1][1])))
+  target = st.one_of(fl, fl, mono, mono, nolead, nolead)
   sub = tree_st(depth - 1)
   num = st.sampled_from([1, -1, 2, -2, 3]).map(lambda v: ("int", v))
   small = tree_st(0) if depth > 1 else sub      # powers / substitutions nest shallowly: cost guard by construction
@@ -724,10 +1015,10 @@ def tree_st(depth):
     leaf,
     st.tuples(op, sub, sub), st.tuples(op, sub, sub),
     st.tuples(op, sub, num), st.tuples(op, num, sub),
-    st.tuples(st.just("/"), sub, fl),
+    st.tuples(st.just("/"), sub, st.one_of(fl, fl, fl, mono, nolead)),
     st.tuples(st.just("**"), small, st.integers(-2, 3)),
     st.tuples(st.just("neg"), sub),
-    st.tuples(st.just("subst"), small, fl))
+    st.tuples(st.just("subst"), small, target), st.tuples(st.just("subst"), fl, mono))
 
 
 def strat_trees(tier):
@@ -758,6 +1049,8 @@ def ev(t, stats):
     return t[1], RF.const(t[1]), False
   if tag == "delay":
     return z ** -t[1], RF({t[1]: 1}), True
+  if tag == "zmono":
+    return t[2] * z ** t[1], RF({-t[1]: F(t[2])}), True
   if tag == "neg":
     r, m, isf = ev(t[1], stats)
     return -r, -m, isf
@@ -782,6 +1075,12 @@ def ev(t, stats):
     except ZeroDivisionError:
       raise Undefined
     stats.add("subst")
+    if len(m2.n) == 1 and len(m2.d) == 1 and min(m2.n) != min(m2.d):
+      stats.add("subst by a power of z")
+      if abs(list(m2.n.values())[0]) != abs(list(m2.d.values())[0]) and (len(m1.n) > 1 or len(m1.d) > 1 or max(m1.n or [0]) > 0):
+        stats.add("subst by a scaled power of z")
+    elif min(m2.n) != min(m2.d):
+      stats.add("subst by a filter starting with a delay")
     return r1(r2), mm, True
   r1, m1, f1 = ev(t[1], stats)
   r2, m2, f2 = ev(t[2], stats)
@@ -819,6 +1118,8 @@ def deg_bound(t):
     return 0
   if tag == "delay":
     return t[1] + 1
+  if tag == "zmono":
+    return abs(t[1]) + 1
   if tag == "neg":
     return deg_bound(t[1])
   if tag == "**":
@@ -971,20 +1272,26 @@ CLAUSES = [
          floors={"multi-term, even n >= 6": .1, "odd n": .1, "negative exponent": .03, "f recursive": .15},
          doc="f**n, 5 <= |n| <= 16, on 1..3-term filters: f applied |n| times, |n|-fold product of filters and of polynomials"),
   Clause("cascade_parallel", strat_lists, run_lists, quick=700, thorough=15000,
-         floors={"shared denominator": .1},
+         floors={"shared denominator": .1, "same member object at several positions": .3},
          doc="CascadeFilter == product, ParallelFilter == sum: outputs and numpoly/denpoly by cross-multiplication"),
   Clause("long_filters", strat_longf, run_longf, quick=40, thorough=600,
          doc="filters with 34..44 taps and Fraction coefficients: product / sum / cascade / parallel polynomials stay exact"),
   Clause("wide_coefficients", strat_wide, run_wide, quick=500, thorough=10000,
          floors={"nearly cancelling coefficients": .12, "nearly cancelling, ints": .04, "nearly cancelling, Fractions": .04,
                  "nearly cancelling, different denominators": .025, "f + c nearly cancels": .015,
-                 "gain p/q, output compared": .06, "outputs compared": .2},
+                 "gain p/q, output compared": .06, "outputs compared": .2,
+                 "divisor starts with a delay, ints beyond 2**53": .04, "constructor removes a common delay": .08},
          doc="+ - * / cascade parallel on big-int, plain-Fraction and nearly cancelling exact coefficients: polynomials always, outputs when every coefficient prints exactly"),
+  Clause("scalar_spellings", strat_spell, run_spell, quick=400, thorough=8000,
+         floors={"float spelling first": .3, "exact spelling after the float spelling": .3,
+                 "exact c on the left after float c on the left, coefficients a float would round": .05},
+         doc="c*f, c+f, c-f, c/f, f*c, f+c, f-c with one scalar value spelled as float, int and Fraction in turn (float on small-int filters, exact spellings on big-int / Fraction filters): every result is the exact one whatever spelling came first"),
   Clause("linearize", strat_lin, run_lin, quick=500, thorough=8000,
          floors={"fractional tap lands on an integer term": .1},
          doc="linearize(): fractional delays become the two neighbouring integer taps, additively and independently of term order"),
   Clause("expression_trees", strat_trees, run_trees, quick=800, thorough=20000,
-         floors={"subst": .03, "field laws": .3, "**": .05},
+         floors={"subst": .03, "field laws": .3, "**": .05, "ran": .4, "subst by a scaled power of z": .02,
+                 "subst by a power of z": .04},
          doc="trees over + - * / ** neg and substitution vs rational-function model; commutative/associative/distributive/f/f/f-f laws"),
   Clause("eq_ne_hash", strat_eq, run_eq, quick=1500, thorough=30000,
          floors={"only denominators differ": .05, "only numerators differ": .05, "equal": .2},
